@@ -38,6 +38,7 @@ func main() {
 	conc := fs.Int("concurrent", 4, "concurrent streams / goroutines")
 	long := fs.Int("long", 0, "number of long random rounds")
 	caps := fs.String("capacities", "", "comma separated key-cache capacities to rotate through (non-simple policies)")
+	cancel := fs.Int("cancel", 0, "per-mille probability that the caller's context is cancelled while a KMS call of the operation returns")
 	ifail := fs.Int("ifail", 0, "per-mille probability of an injected allocation/AEAD failure per operation")
 	strict := fs.Bool("strict", true, "compare with the model prediction and count drift")
 	die(fs.Parse(args))
@@ -61,7 +62,7 @@ func main() {
 				cs = append(cs, n)
 			}
 		}
-		die(envdrv.Replay(*in, *trace, *out, envdrv.Options{Seed: *seed, Strict: *strict, IFail: *ifail}, vs, cs))
+		die(envdrv.Replay(*in, *trace, *out, envdrv.Options{Seed: *seed, Strict: *strict, IFail: *ifail, Cancel: *cancel}, vs, cs))
 	case "env-long":
 		var lc envdrv.LongCfg
 		die(json.Unmarshal([]byte(*cfgJSON), &lc))
